@@ -92,6 +92,35 @@ CLAIMED = {
              "binary -> import into an empty store by the binary -> identical probes on both stores must agree.",
         note="The Lean gob model covers streams Go's encoder produces for the two legacy structs. Trusted: Lean kernel + 3 axioms; correspondence check.",
         ref="DESIGN.md §6 C11"),
+    "C03": dict(
+        technique="Lean 4 theorems over a micro-step model with crash transitions (invariant by induction over executions) + kill-at-every-hook-point differential (SIGKILL, restart on the same badger directory) + Lean judge + SyncWrites read-back and strace probe",
+        text="Partial (disk durability assumed). Theorems C03_recorded_before_release (in every reachable state of every execution "
+             "with any number of crashes, every in-flight or released signature is covered by its key's stored record), "
+             "C03_refuses_after_crash (every request slashable against a released signature is refused afterwards), "
+             "C03_released_never_slashable. Tie: a child process is SIGKILLed at every hook point of seeded histories; the restarted "
+             "instance's export must cover everything returned before the kill (Lean judge), equal the model's store before or after "
+             "the interrupted request, and refuse conflicting probes; call-order traces (store exit before sign) are diffed with the "
+             "model; SyncWrites is read back from the open store and the value log's O_DSYNC/fsync is checked under strace.",
+        note="Assumed: fsynced badger data survives power loss and badger's recovery replays it; SIGKILL cannot lose page-cache data so durability itself is probed only by option read-back and syscall trace. A crash leaving a strict subset of a batch written is not modelled (badger WriteBatch atomicity assumed).",
+        ref="DESIGN.md §6 C03"),
+    "C04": dict(
+        technique="Lean 4 theorems on a small-step concurrent model of the lock protocol (mutual exclusion invariant, atomic commit, linearizability, real-time order) + lock-call trace correspondence + steered schedules judged linearizable by the Lean driver",
+        text="Partial (scheduler). Theorems C04_mutual_exclusion, C04_commit_atomic (each commit equals the request's sequential meaning "
+             "applied atomically), C04_linearizable (final store = sequential object on the requests in commit order, any number of "
+             "threads, any interleaving), C04_real_time_order, C04_footprint_attest, C04_trace_is_protocol. Tie: recorded locker/store "
+             "call sequences of every request equal the model's; steered concurrent schedules (a request parked between read and write) "
+             "are judged by a Wing-Gong search in the Lean driver against the sequential model, plus slashability of everything released; soak runs.",
+        note="Assumed: Go's sync.Mutex semantics and memory model, badger atomic writes. Real interleavings are sampled and steered, only the model's are covered universally.",
+        ref="DESIGN.md §6 C04"),
+    "C15": dict(
+        technique="Lean 4 theorems on the concurrent lock-protocol model (progress from the invariant, strictly decreasing measure, completion; counter-model without the global section) + lock-call trace correspondence + watchdog runs",
+        text="Partial (scheduler). Theorems C15_progress (in every reachable state some request can step unless all are done), "
+             "C15_measure (every step decreases a measure), C15_complete, C15_needs_global (the protocol without PreLock/PostLock "
+             "deadlocks on [0,1] vs [1,0]). Tie: lock-call traces equal the model's (all Locks between PreLock and PostLock, Unlocks "
+             "after the rules in reverse, none on a failed duplicate check); concurrent batches with opposite/nested/crossing key orders "
+             "and sustained load must complete within a watchdog under several GOMAXPROCS.",
+        note="Assumed: a blocked Mutex.Lock proceeds once the mutex is free.",
+        ref="DESIGN.md §6 C15"),
 }
 
 
